@@ -209,6 +209,12 @@ pub fn build(
         }
     }
 
+    if let Some(singleton) = singleton {
+        semantic
+            .type_registry
+            .ensure_address_fits(singleton, &format!("the singleton of type `{resolvee_path}`"))?;
+    }
+
     // Handle fields
     let mut pending_regions: Vec<(Option<usize>, Region)> = vec![];
     let mut vftable_functions = None;
